@@ -312,7 +312,7 @@ def cut_loop(ex, node, st, lid, lspec, it, guard, auto_range):
             it.bind(b, kk)
         variant0 = None
         if lspec.decreases is not None:
-            variant0 = with_ghost(kk, lambda: to_int(ex.eval(ast.parse(lspec.decreases, mode="eval").body, b)))
+            variant0 = with_ghost(kk, lambda: to_int(ex.eval_spec_term(lspec.decreases, b)))
             ctx.oblige(b, "%s.variant-nonneg" % name, variant0 >= 0, "loop-variant", node.lineno)
         skipped = None
         if is_for and it.filter is not None:
